@@ -415,9 +415,53 @@ func checkCRCFieldHelper(p *core.Program, r *core.Report) {
 	nSum := 0
 	for _, e := range []exp{{1, "github.com/howeyc/crc16.Checksum", "crc16table", "PutUint16"}, {2, "hash/crc32.Checksum", "crc32table", "PutUint32"}} {
 		ok, detail := false, "checksum call not found"
+		// the checksum may be computed in a small unexported helper that is handed the destination, the data and the
+		// CRC type: its parameters are read as the arguments of its (only) call in checkCRCField
+		type sumSite struct {
+			call    ssa.CallInstruction
+			at      ssa.Instruction // the instruction of fn that stands for it (the call itself, or the helper's call)
+			resolve func(ssa.Value) ssa.Value
+		}
+		var sites []sumSite
 		for _, c := range core.CallsTo(fn, e.checksum) {
+			sites = append(sites, sumSite{c, c, func(v ssa.Value) ssa.Value { return v }})
+		}
+		for _, h := range core.WithHelpers(fn, 12) {
+			if h == fn {
+				continue
+			}
+			var hcalls []ssa.CallInstruction
+			core.EachInstr(fn, func(in ssa.Instruction) {
+				if cc, ok := in.(ssa.CallInstruction); ok && core.Callee(cc) == h {
+					hcalls = append(hcalls, cc)
+				}
+			})
+			if len(hcalls) != 1 {
+				continue
+			}
+			hc := hcalls[0]
+			res := func(v ssa.Value) ssa.Value {
+				if par, ok := v.(*ssa.Parameter); ok {
+					for i, q := range h.Params {
+						if q == par && i < len(hc.Common().Args) {
+							return hc.Common().Args[i]
+						}
+					}
+				}
+				return v
+			}
+			for _, c := range core.CallsTo(h, e.checksum) {
+				sites = append(sites, sumSite{c, hc, res})
+			}
+		}
+		for _, site := range sites {
+			c := site.call
 			nSum++
 			args := core.CallArgs(c)
+			args = append([]ssa.Value(nil), args...)
+			for i := range args {
+				args[i] = site.resolve(args[i])
+			}
 			okT := false
 			if tbl, isLoad := args[1].(*ssa.UnOp); isLoad {
 				if g, isG := tbl.X.(*ssa.Global); isG && g.Name() == e.table {
@@ -437,13 +481,13 @@ func checkCRCFieldHelper(p *core.Program, r *core.Report) {
 			}
 			okK := false
 			for _, cd := range core.DominatingConds(c.Block()) {
-				if b, isB := cd.V.(*ssa.BinOp); isB && b.Op == token.EQL && cd.True && b.X == typ {
+				if b, isB := cd.V.(*ssa.BinOp); isB && b.Op == token.EQL && cd.True && site.resolve(b.X) == typ {
 					if k, isC := core.ConstInt(b.Y); isC && k == e.k {
 						okK = true
 					}
 				}
 			}
-			okBefore := core.MustPassBefore(readFull, func(i ssa.Instruction) bool { return i == ssa.Instruction(c) }) || !reaches(c, readFull)
+			okBefore := core.MustPassBefore(readFull, func(i ssa.Instruction) bool { return i == site.at }) || !reaches(site.at, readFull)
 			ok = okT && okD && okP && okK
 			detail = fmt.Sprintf("table=%v data=buff.Bytes()++emptyCRC=%v big-endian put=%v under type==%d: %v (before the value is read: %v)", okT, okD, okP, e.k, okK, okBefore)
 		}
